@@ -133,6 +133,12 @@ def run_case(acc, cseed, tmpdir):
     device_dialogues(acc, rng, out, app_hash, it, bad, do_authorize_signer)
     nsig = rng.choice([0, 1, 2, 3, 5, 10])
     keys = []
+    # another image / iteration, named on the command line of some `key` runs although
+    # the output file already exists and names (app_hash, it)
+    areas2 = ihex.gen_areas(rng, max_areas=2, multi_zone=False)
+    app2 = os.path.join(tmpdir, "signer-other.hex")
+    ihex.write(rng, areas2, app2)
+    it2 = rng.choice([it, (it + 1) % 65536, rng.randrange(65536)])
     for j in range(nsig):
         sk = g1.new_key(rng)
         keys.append(sk)
@@ -140,11 +146,33 @@ def run_case(acc, cseed, tmpdir):
         # (a 0x-prefixed key passes the tool's validation but then fails in
         # bytes.fromhex: the tool refuses, which the property allows; not exercised)
         karg = d if rng.random() < 0.5 else d.upper()
-        code, so = run_main(signapp.main, ["signapp.py", "key", "-o", out, "-k", karg])
+        argv = ["signapp.py", "key", "-o", out, "-k", karg]
+        r = rng.random()
+        if r < 0.15:
+            argv += ["-a", app2, "-i", str(it2)]
+            acc.count("key_runs_naming_another_version")
+        elif r < 0.25:
+            argv += ["-a", app, "-i", str(it2)]
+            acc.count("key_runs_naming_another_version")
+        elif r < 0.35:
+            argv += ["-a", app, "-i", it_arg]
+        code, so = run_main(signapp.main, argv)
         acc.evaluations += 1
         if code != 0:
-            bad("signapp-key-failed", code=code, out=so[-200:])
+            bad("signapp-key-failed", code=code, out=so[-200:], argv=argv[1:3] + argv[6:])
             return
+        # whatever version the file names after the run, every signature in it was made
+        # by one of the keys used so far for THAT version's digest
+        dj = json.load(open(out))
+        sg = dj.get("signer", {})
+        tj = "RSK_powHSM_signer_%s_iteration_%s" % (sg.get("hash"), sg.get("iteration"))
+        dgj = keccak256(b"\x19Ethereum Signed Message:\n" + str(len(tj)).encode() + tj.encode())
+        for sig in dj.get("signatures", []):
+            acc.count("signatures_verified")
+            if not any(verify_der(g1.pub65(k).hex(), bytes.fromhex(sig), dgj) for k in keys):
+                bad("file-holds-signature-for-another-version", file_signer=sg,
+                    argv=argv[1:3] + argv[6:])
+                return
     doc = json.load(open(out))
     if doc.get("signer") != {"hash": app_hash.hex(), "iteration": it} or \
             len(doc.get("signatures", [])) != nsig:
@@ -155,6 +183,28 @@ def run_case(acc, cseed, tmpdir):
         acc.count("signatures_verified")
         if not verify_der(g1.pub65(sk).hex(), bytes.fromhex(sig), digest):
             bad("produced-signature-does-not-verify", iteration=it)
+    # `key` as the first operation: it creates the file for the version it is given
+    if rng.random() < 0.3:
+        o3 = os.path.join(tmpdir, "auth-fresh.json")
+        if os.path.exists(o3):
+            os.unlink(o3)
+        sk = g1.new_key(rng)
+        d = sk.privkey.secret_multiplier.to_bytes(32, "big").hex()
+        code, so = run_main(signapp.main, ["signapp.py", "key", "-o", o3, "-k", d, "-a", app2,
+                                           "-i", str(it2)])
+        acc.evaluations += 1
+        acc.count("key_runs_creating_the_file")
+        h2 = ihex.expected_hash(areas2).hex()
+        t2 = "RSK_powHSM_signer_%s_iteration_%d" % (h2, it2)
+        dg2 = keccak256(b"\x19Ethereum Signed Message:\n" + str(len(t2)).encode() + t2.encode())
+        try:
+            d3 = json.load(open(o3))
+        except Exception:
+            d3 = {}
+        if code != 0 or d3.get("signer") != {"hash": h2, "iteration": it2} or \
+                len(d3.get("signatures", [])) != 1 or \
+                not verify_der(g1.pub65(sk).hex(), bytes.fromhex(d3["signatures"][0]), dg2):
+            bad("key-run-creating-the-file-wrong", code=code, doc=str(d3)[:200])
     # manual addition: valid DER accepted, malformed refused and file untouched
     extra = g1.sign(g1.new_key(rng), b"x", rng).hex()
     code, so = run_main(signapp.main, ["signapp.py", "manual", "-o", out, "-g", extra])
